@@ -117,6 +117,16 @@ func (r *request) buildHTTP(mediaType, basePath string, producers map[string]run
 	var pr *io.PipeReader
 	var pw *io.PipeWriter
 
+	// abort releases the multipart pipe when the request cannot be built after the
+	// writer goroutine was started: the goroutine's pending write fails, it closes the
+	// upload files and returns.
+	abort := func(err error) error {
+		if pr != nil {
+			_ = pr.CloseWithError(err)
+		}
+		return err
+	}
+
 	r.buf = bytes.NewBuffer(nil)
 	if r.payload != nil || len(r.formFields) > 0 || len(r.fileFields) > 0 {
 		body = r.buf
@@ -284,11 +294,11 @@ DoneChoosingBodySource:
 		authErr := auth.AuthenticateRequest(r, registry)
 
 		if copyErr != nil {
-			return nil, fmt.Errorf("error retrieving the response body: %v", copyErr)
+			return nil, abort(fmt.Errorf("error retrieving the response body: %v", copyErr))
 		}
 
 		if authErr != nil {
-			return nil, authErr
+			return nil, abort(authErr)
 		}
 	}
 
@@ -298,13 +308,13 @@ DoneChoosingBodySource:
 	// the ones set by the client, then the path pattern, and lastly the base path.
 	basePathURL, err := url.Parse(basePath)
 	if err != nil {
-		return nil, err
+		return nil, abort(err)
 	}
 	staticQueryParams := basePathURL.Query()
 
 	pathPatternURL, err := url.Parse(r.pathPattern)
 	if err != nil {
-		return nil, err
+		return nil, abort(err)
 	}
 	for name, values := range pathPatternURL.Query() {
 		if _, present := staticQueryParams[name]; present {
@@ -336,7 +346,7 @@ DoneChoosingBodySource:
 
 	req, err := http.NewRequestWithContext(context.Background(), r.method, urlPath, body)
 	if err != nil {
-		return nil, err
+		return nil, abort(err)
 	}
 
 	originalParams := r.GetQueryParams()
@@ -347,7 +357,7 @@ DoneChoosingBodySource:
 		_, present := originalParams[k]
 		if !present {
 			if err = r.SetQueryParam(k, v...); err != nil {
-				return nil, err
+				return nil, abort(err)
 			}
 		}
 	}
